@@ -24,7 +24,22 @@ ANCHORS = ["varintFORAnalyze", "varintFORReadMetadata", "varintPFORComputeThresh
            "varintAdaptiveReadMeta", "varintDictGetStats", "varintBitmapGetStats"]
 
 
+M8_ENCODERS = ["varintBP128Encode32", "varintBP128Encode64", "varintBP128DeltaEncode32", "varintBP128DeltaEncode64"]
 M6_PAIRS = [("varintRLEAnalyze", "varintRLEEncode"), ("varintPFORSize", "varintPFOREncode")]
+
+
+def field_leaf(fn, mod, addr):
+    """name of the struct member addressed by a GEP (through casts), or None"""
+    if addr["k"] != "inst": return None
+    g = fn.imap[addr["v"]]
+    if g.op == "bitcast": return field_leaf(fn, mod, g.ops[0])
+    if g.op != "getelementptr" or "field" not in g.d: return None
+    sname = g["field"]["struct"]; di = mod.ditypes.get(sname.split(".", 1)[1] if "." in sname else sname); st = mod.structs.get(sname)
+    if di is None or st is None: return None
+    off = st["fields"][g["field"]["field"]]["off"]
+    for m in di["members"]:
+        if m["off"] == off: return m["name"]
+    return None
 
 
 def meta_params(fn):
@@ -246,6 +261,53 @@ def run(tier):
                       Finding("M6-reported-size-terms-differ", pred, enc, "terms", "the size %s reports is not built from the same length terms as %s's output (%d encoder term(s) unaccounted, %d extra)" % (pred, enc, len(unc), len(unexp)),
                               loc="%s:%s" % (rel(pf.file), pf.line)))
         run.floor("analysis/encoder size-term pairs (%s)" % cfg, n6, len(M6_PAIRS))
+        # M8: the reported number of blocks of the four BP128 encoders equals ceil(values packed into blocks / 128), for every count
+        from ..core import World as _W
+        from ..esize import UB, Poly, Unbounded, udiv_poly, residue_eval
+        w8 = _W(mod); n8 = 0
+        for enc in M8_ENCODERS:
+            f = need_fn(mod, enc); u = UB(w8, f); u.q = True
+            ck = f.param_index("count")
+            if ck is None: raise AnalysisBroken("M8: %s has no count parameter" % enc)
+            ca = u.arg_atom(ck)
+            # how many values go into blocks: the span of the block loop / the dividend of fullBlocks / the initial value of the decrement loop
+            span = None
+            for h in u.loops:
+                blk = u.block_loop(h)
+                if blk is not None: span = blk[2]
+                t = f.bmap[h].term
+                if span is None and t.op == "br" and len(t.ops) == 3 and t.ops[0]["k"] == "inst":
+                    ci = f.imap[t.ops[0]["v"]]
+                    if ci.op == "icmp" and ci.ops[0]["k"] == "inst" and f.imap[ci.ops[0]["v"]].op == "phi":
+                        d = u.decrement_loop(f.imap[ci.ops[0]["v"]])
+                        if d is not None: span = u.exact(d[0])
+                    if span is None and ci.op == "icmp" and ci.ops[1]["k"] == "inst":
+                        x = f.imap[ci.ops[1]["v"]]
+                        if x.op == "udiv" and x.ops[1]["k"] == "int" and int(x.ops[1]["v"]) == 128: span = u.exact(x.ops[0])
+            if span is None: raise AnalysisBroken("M8: block structure of %s not recognised" % enc)
+            want = udiv_poly(span + Poly.const(127), 128)
+            stores = [i for i in f.insts() if i.op == "store" and field_leaf(f, mod, i.ops[1]) == "blockCount"]
+            if not stores: run.defer_broken("M8: %s does not store blockCount" % enc); continue
+            for st in stores:
+                u.site = st.block
+                got = u.exact(st.ops[0])
+                if got is None: run.defer_broken("M8 %s: the value stored into blockCount at %s is not an exact expression of count" % (enc, loc(st))); continue
+                bad = None
+                try:
+                    for r in range(128):
+                        for qpos in (False, True):
+                            if not qpos and r == 0: continue
+                            a = residue_eval(got, ca, 128, r, qpos); b = residue_eval(want, ca, 128, r, qpos)
+                            if a != b: bad = (r, qpos, a, b); break
+                        if bad: break
+                except Unbounded as e:
+                    run.defer_broken("M8 %s: %s" % (enc, e)); continue
+                n8 += 1
+                run.check(bad is None, "M8-block-count-is-ceil-of-packed-values", {"fn": enc, "stored": repr(got), "packed_values": repr(span)},
+                          Finding("M8-block-count-wrong", enc, "varintBP128Meta.blockCount", "store",
+                                  "%s stores blockCount = %r but packs %r values into blocks of 128: for count = %s the two differ (%r blocks reported, %r written)" % (
+                                      enc, got, span, ("128*q + %d (q >= 1)" % bad[0]) if bad and bad[1] else (bad[0] if bad else ""), bad[2] if bad else "", bad[3] if bad else ""), loc=loc(st)))
+        if not getattr(run, "deferred", None): run.floor("BP128 block-count stores (%s)" % cfg, n8, 4)
     controls(run)
     run.coverage.update({"configurations": per,
                          "not_decided": "that minValue is the minimum, that runCount / exceptionCount / totalBits are numerically right (value-level); sizes reported by *Analyze functions vs bytes later written are C03's exact-predictor clause; M4 (header readers parse the writer's layout) is listed separately when built"})
